@@ -41,7 +41,7 @@ ASSUMPTIONS = [
 def option_vector(rng, bias=None):
     v = {}
     r = rng.random()
-    if bias == "delay" and r < 0.5:
+    if bias == "delay" and r < 0.7:
         # a small fixed-point budget against a delay line: failure / growth has to travel through the copies
         v = {"type_fp_iterations": rng.choice([1, 1, 2, 3])}
         if rng.random() < 0.3:
@@ -141,14 +141,14 @@ def linear_system_program(rng):
 def delay_line_program(rng):
     """acyclic systems with delayed copies (x = y; y = w; w = c): closed forms that only hold from a later iteration on,
     accumulators over products of delayed values, higher moments"""
-    k = rng.choice([2, 3, 3, 4, 5, 6])
+    k = rng.choice([2, 3, 4, 4, 5, 6])
     chain = ["x", "y", "w", "v", "u", "t"][:k]
-    consts = rng.sample([1, 2, 3, 5, 7, -1], k) if rng.random() < 0.6 else [0] * k
+    consts = rng.sample([1, 2, 3, 5, 7, -1], k) if rng.random() < 0.4 else [0] * k
     init = [["assign", v, num(c)] for v, c in zip(chain, consts)] + [["assign", "z", num(0)]]
     rng.shuffle(init)
     copies = [["assign", chain[i], var(chain[i + 1])] for i in range(k - 1)]
     last = rng.random()
-    if last < 0.5:
+    if last < 0.25:
         tail = ["assign", chain[-1], num(rng.choice([0, 2, 4]))]
     elif last < 0.8:
         tail = ["assign", chain[-1], ["choice", [[num(rng.choice([0, 1])), "1/2"], [num(rng.choice([2, 3])), None]]]]
@@ -166,7 +166,8 @@ def delay_line_program(rng):
     body = copies + [tail]
     body.insert(rng.choice([0, 0, len(body)]), acc)
     goals = ["z", chain[0]] + (["z**2"] if rng.random() < 0.5 else []) + ([f"{chain[0]}*{chain[1]}"] if rng.random() < 0.4 else []) \
-        + ([f"{chain[0]}**2"] if rng.random() < 0.6 else [])
+        + [f"{chain[0]}**2"]
+    goals = [f"{chain[0]}**2"] + [g for g in goals[:-1]]
     return {"types": [], "init": init, "guard": ["true"], "body": body}, goals
 
 
@@ -244,7 +245,7 @@ def _program_choice(rng):
     if r < 0.3:
         prog, goals = delay_line_program(rng)
         text = render_program(prog)
-        return {"text": text}, rng.sample(goals, min(len(goals), 3)), "dly:" + hashlib.sha256(text.encode()).hexdigest()[:10], "delay"
+        return {"text": text}, goals[:1] + rng.sample(goals[1:], min(len(goals) - 1, 2)), "dly:" + hashlib.sha256(text.encode()).hexdigest()[:10], "delay"
     if r < 0.5:
         prog, goals, squares = linear_system_program(rng)
         text = render_program(prog)
@@ -273,7 +274,8 @@ def gen_case(seed, extra=None):
     progs = [_program_choice(rng) for _ in range(nprog)]
     if nprog >= 2 and rng.random() < 0.3:
         progs.append(progs[0])
-    bias = rng.choice([p[3] for p in progs])
+    kinds = [p[3] for p in progs]
+    bias = "delay" if "delay" in kinds and rng.random() < 0.8 else rng.choice(kinds)
     vec = option_vector(rng, bias)
     sessions = []
     for program, goals, pid, _ in progs:
